@@ -282,11 +282,68 @@ func macroRun(c *mc.Ctx, ws *pipe.Workspace, property string, inDomain func(c *l
 	}
 }
 
+// wideLiterals: literals whose characters need 2, 3 and 4 bytes of UTF-8,
+// together with the Latin-1 characters that equal their lead bytes and the
+// code points at the edges of each encoding length.
+var wideLiterals = [][]int{
+	{0xE9}, {0xC3}, {0xEA}, {0x20AC}, {0x2192}, {0xE2}, {0x1F600}, {0xF0},
+	{0x80}, {0x7FF}, {0x800}, {0xFFFF}, {0x10000}, {0x10FFFF},
+	{'a', 0xE9}, {0xE9, 'a'}, {0xE9, 0x20AC}, {0x20AC, 0xE9}, {0xC3, 0xA9},
+}
+
+// wideLiteralRun: every specification of 1, 2 (thorough: 3) token rules that
+// are each one of wideLiterals, in every order, written as escapes and
+// verbatim.
+func wideLiteralRun(c *mc.Ctx, ws *pipe.Workspace, property string, inDomain func(c *lexref.Compiled) (bool, string)) {
+	n := int64(len(wideLiterals))
+	maxRules := 2
+	if !c.Quick() {
+		maxRules = 3
+	}
+	idx := int64(0)
+	for nr := 1; nr <= maxRules; nr++ {
+		total := int64(1)
+		for i := 0; i < nr; i++ {
+			total *= n
+		}
+		for i := int64(0); i < total; i++ {
+			idx++
+			if !c.Mine(idx) {
+				continue
+			}
+			s := &lexref.Spec{Modes: []lexref.Mode{{}}}
+			k := i
+			seen := map[int64]bool{}
+			dup := false
+			for r := 0; r < nr; r++ {
+				if seen[k%n] {
+					dup = true
+				}
+				seen[k%n] = true
+				s.Modes[0].Rules = append(s.Modes[0].Rules, lexref.Rule{K: lexref.RToken, Name: fmt.Sprintf("T%d", r+1), Rx: lexref.LitCP(wideLiterals[k%n]...)})
+				k /= n
+			}
+			if dup {
+				continue
+			}
+			for _, raw := range []bool{false, true} {
+				lexref.Raw = raw
+				vs := c02One(ws, fmt.Sprintf("wide-literals-%d", nr), i, s, 2, &c.Stats, property, inDomain)
+				lexref.Raw = false
+				for _, v := range vs {
+					c.Stats.Violate(v)
+				}
+			}
+		}
+	}
+}
+
 func c02Worker(c *mc.Ctx) {
 	prm := c02Families(c.Quick())
 	ws := pipe.NewWorkspace("c02")
 	defer ws.Close()
 	rangeAlgebraRun(c, ws, "C02", specInDomainC02)
+	wideLiteralRun(c, ws, "C02", specInDomainC02)
 	macroRun(c, ws, "C02", specInDomainC02, prm.L)
 	for _, fam := range prm.sets {
 		n := fam.rs.Size()
@@ -333,6 +390,7 @@ func init() {
 		ID:    "C02",
 		Level: "model_checking",
 		Rule: "rule sets: every specification of 1-3 rules (token or @frag @discard; single rules up to 4 nodes in the quick tier) whose expressions are drawn from the pool of all regexes up to a size bound over the leaves {'a','b','ab',[a],[ab],[a-c],~[a],[a-c]-[b],.} with ? * + | concatenation and grouping (counter-enumerated); kept if greedy, no empty class, no rule matching the empty string; " +
+			"plus the wide-literal family: every specification of 1-2 (thorough: 3) rules that are each a literal of 2-, 3- and 4-byte code points (and the Latin-1 characters equal to their lead bytes, and the edges of each encoding length), written as escapes and verbatim; " +
 			"plus the range-algebra family: every specification of 3 rules that are each one range over the points a..f and of 4 rules over a..e (thorough: 4 over a..f, 5 over a..d), i.e. every way ranges nest, overlap, coincide with the remainder of a split and are split again, in every order; and the macro family: @macro bodies from the pool, used in two rules, twice in one rule, nested in a second macro, under ? * +, in a discarding fragment; " +
 			"each: breadth-first search of the product (real _LexerStateMachine with the spec's emitted tables) x (tuple of Brzozowski derivatives) over both end points and a middle point of every atom of the spec's classes plus EOF - a finite graph, so event streams agree for inputs of every length up to the first error; " +
 			"then every string of up to L symbols (ASCII, 2/3/4-byte code points, invalid UTF-8 bytes) through the real simplelexer driver, comparing token type, text span and position; states/transitions = product nodes/edges; non-trivial = spec with > 3 product states",
